@@ -281,15 +281,18 @@ def impl(c):
         return (tuple((k, type(k), type(v), v) for k, v in p.terms(sort=False)), type(z), repr(z))
 
     def resnap():
+        """the snapshots of the variables whose instance changed (or appeared) during this step"""
         while len(fps) < len(vars_):
             fps.append(None)
             snaps.append(None)
+        ch = {}
         for i, v in enumerate(vars_):
             if v is not None:
                 f = fp(v)
                 if f != fps[i]:
                     fps[i], snaps[i] = f, snap(v)
-        return list(snaps)
+                    ch[str(i)] = snaps[i]
+        return ch
     for op in c["ops"]:
         def get(i):
             if i >= len(vars_) or vars_[i] is None:
@@ -326,7 +329,7 @@ def impl(c):
                     st = {"r": "hash"}
                 else:
                     st = {"r": "none"}
-        st["vars"] = resnap()
+        st["changed"] = resnap()
         steps.append(st)
     # the final cross: every pair of variables
     live = [i for i, v in enumerate(vars_) if v is not None]
@@ -359,7 +362,7 @@ def impl(c):
             except Exception as e:
                 row["err"] = err_kind(e)
             pairs.append(row)
-    return {"steps": steps, "live": live, "pairs": pairs,
+    return {"steps": steps, "live": live, "pairs": pairs, "final": list(snaps),
             "hash_err": {str(i): h["err"] for i, h in hashes.items() if isinstance(h, dict)}}
 
 
@@ -447,8 +450,11 @@ def compare(c, io, drv):
     heap = {}                      # model address -> model object (mirror of the model's heap)
     maddr = []                     # variable -> model address
     tainted = set()                # variables whose value depends on an inexact float operation
+    isnap = {}                     # variable -> its current snapshot in the real code
     for t, (op, ist, mst) in enumerate(zip(ops, io["steps"], m["steps"])):
         what = "step %d %s: " % (t, json.dumps(op)[:90])
+        for i, sn in ist.get("changed", {}).items():
+            isnap[int(i)] = sn
         if mst["r"] == "skip" or ist["r"] == "skip":
             maddr.append(None)
             if mst["r"] != ist["r"]:
@@ -472,7 +478,7 @@ def compare(c, io, drv):
                 return out         # the histories have diverged on rounding residue: nothing more to compare
             continue
         if ist["r"] != mst["r"]:
-            out.append(("model", what + "impl %s, model %s" % (json.dumps({k: v for k, v in ist.items() if k != "vars"})[:120],
+            out.append(("model", what + "impl %s, model %s" % (json.dumps({k: v for k, v in ist.items() if k != "changed"})[:120],
                                                                 json.dumps({k: v for k, v in mst.items() if k != "obj"})[:120])))
             return out
         r = ist["r"]
@@ -489,8 +495,8 @@ def compare(c, io, drv):
             if ist["is"] is not None and not same_model:
                 out.append(("model", what + "the result IS the object of variable %d; the model returns a new object" % ist["is"]))
         # frame: every live object as the model has it now
-        for i, sn in enumerate(ist["vars"]):
-            if sn is None or i in tainted or maddr[i] is None:
+        for i, sn in sorted(isnap.items()):
+            if i in tainted or i >= len(maddr) or maddr[i] is None:
                 continue
             pr = obj_problems(sn, heap[maddr[i]])
             if pr:
@@ -600,22 +606,21 @@ def tally(eng, c, io):
                                                "0" if op[2] == 0 else ("<0" if op[2] < 0 else ("1" if op[2] == 1 else ">1"))))
         elif op[0] == "call":
             eng.count("z_call", "horner=%s, %s point" % (op[3], "zero" if to_py(op[2]) == 0 else "non-zero"))
-        if st["r"] == "obj" and st["vars"][-1]:
-            for _, v in st["vars"][-1]["terms"]:
+        for sn in st.get("changed", {}).values():
+            for _, v in sn["terms"]:
                 if isinstance(v, list):
                     kinds.add(v[0])
     for k in kinds:
         eng.count("z_coefficient_kind", {"b": "bool", "i": "int", "F": "Fraction", "f": "float", "c": "complex"}.get(k, k))
     zs = set()
-    for st in io["steps"][-1:]:
-        for sn in st.get("vars", []):
-            if sn:
-                zs.add(json.dumps(sn["zero"]))
+    fin = io.get("final", [])
+    for sn in fin:
+        if sn:
+            zs.add(json.dumps(sn["zero"]))
     eng.count("z_distinct_zero_spellings_alive", len(zs))
     ne = sum(1 for r in io["pairs"] if r.get("eq") and r["i"] < r["j"])
-    nx = sum(1 for r in io["pairs"] if r.get("eq") and r["i"] < r["j"] and
-             json.dumps(io["steps"][-1]["vars"][r["i"]]["zero"]) != json.dumps(io["steps"][-1]["vars"][r["j"]]["zero"])) \
-        if io["steps"] and "vars" in io["steps"][-1] else 0
+    nx = sum(1 for r in io["pairs"] if r.get("eq") and r["i"] < r["j"] and fin[r["i"]] and fin[r["j"]] and
+             json.dumps(fin[r["i"]]["zero"]) != json.dumps(fin[r["j"]]["zero"]))
     eng.count("z_equal_pairs", min(ne, 10))
     eng.count("z_equal_pairs_with_differently_spelled_zeros", min(nx, 10))
     eng.count("z_unhashable_objects", len(io["hash_err"]))
@@ -987,16 +992,16 @@ def fixed_cases():
 def generate(rng, tier, scale=1):
     quick = tier == "quick"
     out = fixed_cases() if scale == 1 else []
-    for _ in range((300 if quick else 6000) * scale):
+    for _ in range((300 if quick else 2500) * scale):
         out.append(gen_cross(rng))
-    for _ in range((200 if quick else 4000) * scale):
+    for _ in range((200 if quick else 1500) * scale):
         out.append(gen_ring(rng))
-    for _ in range((300 if quick else 6000) * scale):
+    for _ in range((300 if quick else 2500) * scale):
         out.append(gen_walk(rng, rng.randint(3, 12)))
-    for _ in range((80 if quick else 1500) * scale):
+    for _ in range((80 if quick else 600) * scale):
         out.append(gen_walk(rng, rng.randint(3, 9), malformed=True))
-    for _ in range((120 if quick else 2000) * scale):
+    for _ in range((120 if quick else 800) * scale):
         out.append(gen_weird(rng))
-    for _ in range((400 if quick else 6000) * scale):
+    for _ in range((400 if quick else 4000) * scale):
         out.append(gen_pynum(rng))
     return out
